@@ -557,8 +557,11 @@ inline void runC15(Ctx &c)
                     }
                     hh = mix64(hh, hashStr(trace.back().c_str()));
                     c.event("ops");
+                    // not after every op and not every object: an evaluation rebuilds lazy state, so always querying everything
+                    // would hide defects that need "reconfigured but not yet queried" objects to be copied or assigned
                     for (size_t q = 0; q < live.size() && !c.case_failed; ++q)
-                        checkObj(q, "after step " + std::to_string(step) + " (" + trace.back() + ")");
+                        if (r.coin(0.45) || step + 1 == len)
+                            checkObj(q, "after step " + std::to_string(step) + " (" + trace.back() + ")");
                 }
                 c.nontrivial(hh);
                 if (idx < 1)
@@ -882,6 +885,19 @@ inline void runC16opt(Ctx &c)
                     snprintf(b, sizeof b, "threshold duration[%d]=%a", i, dv);
                     apply(in, b);
                 }
+            // the same thresholds through the time-point overload (the effective duration is the rounded difference)
+            for (double dv : {1e-3, std::nextafter(1e-3, 0.0), std::nextafter(1e-3, 1.0), 1e-3 - 5e-10, 1e-3 - 1e-12, 1e-3 + 1e-12, 9.999999e-4, 9.99e-4})
+                for (int i : {0, N - 1})
+                {
+                    ValidityInput in = mk(true);
+                    // rebuild the points from zero so that differences are representable as intended
+                    in.tp[0] = 0.0;
+                    for (int q = 0; q < N; ++q)
+                        in.tp[q + 1] = in.tp[q] + (q == i ? dv : base.T[q]);
+                    char b[64];
+                    snprintf(b, sizeof b, "threshold time_point_gap[%d]=%a", i, dv);
+                    apply(in, b);
+                }
             // by time points: equal / decreasing points give zero / negative durations
             {
                 ValidityInput in = mk(true);
@@ -939,6 +955,27 @@ inline void runC19(Ctx &c)
             const double eps = defaults ? 1e-6 : r.pick(std::vector<double>{1e-5, 1e-6, 3e-7});
             const double tol = defaults ? 1e-4 : r.pick(std::vector<double>{1e-3, 1e-4, 1e-5});
             const int wsH = r.coin(0.5) ? -1 : rig.env->newWorkspace();
+            if (r.coin(0.5))
+            {
+                // the optimizer was used with another configuration before (layout built), then reconfigured; nothing is
+                // queried between the reconfiguration and the self-check
+                OptFlags other = OptFlags::fromByte(r.range(0, 255));
+                rig.opt->setFlags(other);
+                if (r.coin())
+                    (void)rig.opt->getDimension();
+                else
+                    (void)rig.opt->initialGuess();
+                if (r.coin(0.3))
+                {
+                    OptCase o2 = genOptCase(r, cl.order, cl.dim, r.range(1, 6), cl.combo);
+                    o2.userTm = o2.userSm = false;
+                    (void)rig.opt->setInitDur(o2.ref.T, o2.ref.P, o2.ref.t0, o2.ref.bc);
+                    (void)rig.opt->getDimension();
+                    (void)initRig(rig, oc);
+                }
+                rig.opt->setFlags(oc.flags);
+                c.event("self_check_after_unqueried_reconfiguration");
+            }
             // three variants: correct functors, then one perturbed gradient component
             for (int variant = 0; variant < 2; ++variant)
             {
